@@ -8,13 +8,13 @@ VERIF = os.path.dirname(os.path.dirname(os.path.abspath(__file__)))
 TRUST = "Trusted: rustc nightly MIR construction and trait resolution; semantics of std / third-party APIs as frozen in riolib tables; the reference tables and exception tables in rules/ (derived by reading). Decides necessary structural conditions, not the behavioural statement as a whole."
 
 CLAIMED = {
-    "C01": ("Static decision of structural necessary conditions of exact matching on every MIR path: bucket coverage of insert/match over the 7 discovered layers (16 buckets), insert totality (count += 1 once, route reaches a bucket), the any-host decision table, half-open time windows and cidr polarity as truth tables, duplicate-free union, option flags read by value, statelessness (no interior mutability / mutable statics reachable), case flag reaching every regex build, and single-id removal visiting every bucket a route can live in (a removed rule must stop matching under each of its methods / hosts).",
+    "C01": ("Static decision of structural necessary conditions of exact matching on every MIR path: bucket coverage of insert/match over the 7 discovered layers (16 buckets), insert totality (count += 1 once, route reaches a bucket), the any-host decision table, half-open time windows and cidr polarity as truth tables, duplicate-free union, option flags read by value, statelessness (no interior mutability / mutable statics reachable), case flag reaching every regex build, and single-id removal visiting every bucket a route can live in (a removed rule must stop matching under each of its methods / hosts). Also: hand-written orderings of bucket keys compare the whole key (R01.14).",
             "static analysis: MIR dataflow + path-sensitive decision tables + type walk", "DESIGN.md §3 C01"),
-    "C02": ("Static decision of the mechanisms that keep incremental updates equal to a rebuild: bucket coverage of remove/batch_remove, removal-result propagation (dropped-result analysis over 20+ call sites incl. closures), router index/tree synchronisation (field effects), change-set ordering (dominance), no spurious count decrement, clone isolation at the type level (interior-mutability inventory, no unsafe, clone-then-mutate provenance, manual Clone impls copy every field).",
+    "C02": ("Static decision of the mechanisms that keep incremental updates equal to a rebuild: bucket coverage of remove/batch_remove, removal-result propagation (dropped-result analysis over 20+ call sites incl. closures), router index/tree synchronisation (field effects), change-set ordering (dominance), no spurious count decrement, clone isolation at the type level (interior-mutability inventory, no unsafe, clone-then-mutate provenance, manual Clone impls copy every field). Also: a route found by one bucket is not overwritten by a later bucket's None (R02.2), and update_existing_router hands the change-set lists over as given (R02.6).",
             "static analysis: dropped-result / dominance / field-effect / type-level checks over MIR", "DESIGN.md §3 C02"),
-    "C13": ("Static decision of the structural mechanisms behind the property: the dispatch table (operation name -> implementation, fields from the filter), the per-operation decision tables over the atom 'names equal' compared as functions with the five reference operations, lower-casing of both operands of every name comparison, the forward fold, and Action::filter_headers keeping every header filter admitted by its response-code guard, in stored order, on the list handed to the fold. Decided for all inputs because they are facts about all MIR paths.",
+    "C13": ("Static decision of the structural mechanisms behind the property: the dispatch table (operation name -> implementation, fields from the filter), the per-operation decision tables over the atom 'names equal' compared as functions with the five reference operations, lower-casing of both operands of every name comparison, the forward fold, and Action::filter_headers keeping every header filter admitted by its response-code guard, in stored order, on the list handed to the fold. Decided for all inputs because they are facts about all MIR paths. Also: the chain is built with one action per filter and every action of the fold is applied (R13.4).",
             "static analysis: path-sensitive decision tables extracted from MIR and compared with reference tables", "DESIGN.md §3 C13"),
-    "C17": ("Static sibling cross-check between match_request and trace of every layer: same buckets, same request accessors and trigger predicates, same any-host decision table, same priority sort key, trace on the normalised request, unmatched trace nodes never carry routes (path-sensitive), and the per-request condition memo written by trace holds the result of evaluating that condition (under a proved loop invariant on the matched/executed flags), as in matching.",
+    "C17": ("Static sibling cross-check between match_request and trace of every layer: same buckets, same request accessors and trigger predicates, same any-host decision table, same priority sort key, trace on the normalised request, unmatched trace nodes never carry routes (path-sensitive), and the per-request condition memo written by trace holds the result of evaluating that condition (under a proved loop invariant on the matched/executed flags), as in matching. Also: get_trace assembles its answer from the traces alone, computed child traces are attached unmodified, request values and tree look-ups are tested in trace as in matching.",
             "static analysis: sibling agreement (callee sets, decision tables) over MIR", "DESIGN.md §3 C17"),
 }
 
